@@ -15,6 +15,7 @@ class StreamHandler(BackpressureApi, metaclass=ABCMeta):
         self.stream_id: Optional[int] = None
         self.socket = socket
         self._initial_request_n = MAX_REQUEST_N
+        self._is_finished = False
 
     @abstractmethod
     def setup(self):
@@ -38,10 +39,17 @@ class StreamHandler(BackpressureApi, metaclass=ABCMeta):
     def send_cancel(self):
         """Convenience method for use by requester subclasses."""
 
+        if self._is_finished:
+            return  # nothing may follow on a stream that has already terminated
+
         self.socket.send_frame(to_cancel_frame(self.stream_id))
 
     def send_request_n(self, n: int):
+        if self._is_finished:
+            return  # nothing may follow on a stream that has already terminated
+
         self.socket.send_frame(to_request_n_frame(self.stream_id, n))
 
     def _finish_stream(self):
+        self._is_finished = True
         self.socket.finish_stream(self.stream_id)
